@@ -1,5 +1,5 @@
 open Model
-(* calc_traits <sexpr ...>  ->  blocking=<int> sends_done=<0|1> affine=<0|1>
+(* calc_traits <sexpr ...>  ->  blocking=<int> sends_done=<0|1> affine=<0|1> rt_blocking=<int>
    the mirrored compile-time sender traits (Calc/TraitsDefs.v) of the C++ expression that
    tools/k2.py to_cpp emits for the term; integers as unifex::blocking_kind::_enum (blocking.hpp) *)
 let bk_int = function
@@ -8,5 +8,6 @@ let () =
   Registry.register "calc_traits" (fun args ->
     let (sx, _) = H_calc.parse (H_calc.tokenize (String.concat " " args)) in
     let e = H_calc.ex sx in
-    Printf.sprintf "blocking=%d sends_done=%s affine=%s" (bk_int (CalcTraits.blocking_of e))
-      (H_calc.b01 (CalcTraits.sends_done_of e)) (H_calc.b01 (CalcTraits.affine_of e)))
+    Printf.sprintf "blocking=%d sends_done=%s affine=%s rt_blocking=%d" (bk_int (CalcTraits.blocking_of e))
+      (H_calc.b01 (CalcTraits.sends_done_of e)) (H_calc.b01 (CalcTraits.affine_of e))
+      (bk_int (CalcTraits.rt_blocking_of e)))
